@@ -149,6 +149,7 @@ def evaluate(text, variant, n, pairs=None):
     im = parse_side(r.impl, pairs, zs, taus, True)
     orc = parse_side(r.oracle, pairs, zs, taus, False)
     info["throws"] = im["THROWS"]
+    info["oracle_missing"] = not orc["G"]
     # bookkeeping for the truncation bound
     nnz = {}
     for t in r.dumprec("OPMAT"):
@@ -325,7 +326,7 @@ def scenarios(chk, quick):
     rng = chk.rng
     out = []
     fams = list(scen.FAMILIES) + [small_beta, large_beta, large_beta]
-    reps = 1 if quick else 3
+    reps = 1 if quick else 5
     for rep in range(reps):
         for fam in fams:
             for symm in ("default", "ignore"):
@@ -335,7 +336,7 @@ def scenarios(chk, quick):
             name, text, n, info = fam(rng, "ignore")
             out.append((name, "ignore", "real", text, n))
     if not quick:
-        for rep in range(3):
+        for rep in range(5):
             for symm in ("default", "ignore"):
                 name, text, n, info = complex_hop(rng, symm)
                 out.append((name, symm, "complex", text, n))
@@ -370,6 +371,8 @@ def run(chk):
             chk.notes.append("scenario %s/%s did not build: %s" % (name, symm, info.get("error") or info.get("crash")))
             continue
         maxbp = max(maxbp, info.get("max_beta_pole", 0.0))
+        if info.get("oracle_missing") and not any(b.get("name") == "driver_ed" for b in chk.broken):
+            chk.tie_broken("driver_ed", "the specification oracle returned no G values for scenario %s/%s (%s build)" % (name, symm, variant))
         famhist["%s/%s/%s" % (name, symm, variant)] = famhist.get("%s/%s/%s" % (name, symm, variant), 0) + len(cases)
         for (canon, sig, nt) in cases:
             chk.case("%s|%s|%s|%s|%s" % (name, symm, variant, text, canon), "%s [%s,%s]" % (sig, symm, variant), nontrivial=nt,
